@@ -5,7 +5,7 @@ set -u
 P=$1; shift
 WT=$(mktemp -d /tmp/wt-XXXXXX); rmdir $WT
 git -C /repo worktree add -q --detach $WT HEAD || exit 9
-if ! git -C $WT apply "$P"; then echo "PATCH DOES NOT APPLY"; git -C /repo worktree remove --force $WT; exit 9; fi
+P=$(readlink -f "$P"); if ! git -C $WT apply "$P"; then echo "PATCH DOES NOT APPLY"; git -C /repo worktree remove --force $WT; exit 9; fi
 ( cd /verif && VERIF_REPO=$WT VERIF_EVIDENCE_DIR=/tmp/wt-evidence VERIF_REPLAY_DIR=/tmp/wt-replays "$@" ); rc=$?
 git -C /repo worktree remove --force $WT
 exit $rc
